@@ -30,7 +30,8 @@ StepIter(e) ==
                script |-> e.runs[k][1], step |-> r.step,
                obs |-> IF r.step > 0 THEN e.runs[k][2][r.step] ELSE <<>>, bad |-> r.bad])
 \* a panic of the library is data (harness note `panicked_calls`), not a verdict of this property
-StepPanic(e) == e.ev = "panic"
+\* a library call of this case panicked: the property promises a result for every input of its domain
+StepPanic(e) == e.ev = "panic" /\ Report(e.case, {"library_call_panicked"}, [msg |-> e.msg, loc |-> e.loc])
 
 Next == /\ l <= NRec
         /\ LET e == Rec[l] IN StepCase(e) \/ StepLoad(e) \/ StepStore(e) \/ StepIter(e) \/ StepPanic(e)
